@@ -84,20 +84,54 @@ def kani_cmd(filters, json_path, jobs, timeout_s, extra=()):
     return cmd
 
 
+KILLED = []
+
+
+def memory_watchdog(scratch, stop):
+    """Kills any CBMC process of this run whose resident set exceeds the cap.  (RLIMIT_AS cannot be
+    used: it would also apply to the multi-threaded kani-driver, which then aborts.)  A killed CBMC
+    makes its harness end without a verdict, which the runner reports as INCONCLUSIVE."""
+    cap_kb = MEM_LIMIT_GB * 1024 * 1024
+    while not stop.wait(2.0):
+        for pid in os.listdir("/proc"):
+            if not pid.isdigit():
+                continue
+            try:
+                cmd = open("/proc/%s/cmdline" % pid, "rb").read().split(b"\0")
+                if not cmd or not cmd[0].endswith(b"cbmc") or scratch.encode() not in b" ".join(cmd):
+                    continue
+                rss = 0
+                for line in open("/proc/%s/status" % pid):
+                    if line.startswith("VmRSS:"):
+                        rss = int(line.split()[1])
+                if rss > cap_kb:
+                    os.kill(int(pid), 9)
+                    KILLED.append(pid)
+            except Exception:
+                continue
+
+
 def run_kani(scratch, filters, jobs, timeout_s, tag):
     """Runs one cargo-kani invocation; returns (parsed json or None, raw output, wall seconds)."""
+    import threading
+
     w = os.path.join(scratch, "w")
     json_path = os.path.join(scratch, "kani-%s.json" % tag)
     t0 = time.time()
-    p = subprocess.run(
-        kani_cmd(filters, json_path, jobs, timeout_s),
-        cwd=w,
-        env=base_env(scratch),
-        stdout=subprocess.PIPE,
-        stderr=subprocess.STDOUT,
-        text=True,
-        preexec_fn=limit_resources,
-    )
+    stop = threading.Event()
+    wd = threading.Thread(target=memory_watchdog, args=(scratch, stop), daemon=True)
+    wd.start()
+    try:
+        p = subprocess.run(
+            kani_cmd(filters, json_path, jobs, timeout_s),
+            cwd=w,
+            env=base_env(scratch),
+            stdout=subprocess.PIPE,
+            stderr=subprocess.STDOUT,
+            text=True,
+        )
+    finally:
+        stop.set()
     wall = time.time() - t0
     data = None
     if os.path.exists(json_path):
@@ -169,7 +203,6 @@ def extract_playback(scratch, hid):
     cmd += ["-Z", "concrete-playback", "--concrete-playback=print", "--harness", hid, "--exact"]
     p = subprocess.run(
         cmd, cwd=w, env=base_env(scratch), stdout=subprocess.PIPE, stderr=subprocess.STDOUT, text=True,
-        preexec_fn=limit_resources,
     )
     tests = PLAYBACK_RE.findall(p.stdout)
     if not tests:
@@ -311,6 +344,8 @@ def main():
             timeout_s = spec.get("timeout", {}).get(tier, 600 if tier == "quick" else 3600)
             data, out, kani_wall = run_kani(scratch, filters, jobs, timeout_s, "main")
             digest = summarise_kani(data, out)
+            if KILLED:
+                inconclusive.append("%d CBMC process(es) killed by the memory watchdog (> %d GB)" % (len(KILLED), MEM_LIMIT_GB))
             if data is None or not digest:
                 tail = "\n".join(l for l in out.splitlines() if not l.startswith("warning"))[-6000:]
                 log(tail)
